@@ -184,6 +184,13 @@ FixRepresentable(f) ==
   ELSE IF ~f.neg THEN MagLe(f.k, f.d, IF FixSigned(f.ub) THEN FixBits(f.ub) - 1 ELSE FixBits(f.ub), -1)
   ELSE FixSigned(f.ub) /\ MagLe(f.k, f.d, FixBits(f.ub) - 1, 0)
 
+(* 6.8.4.2p3 with p5: no two case constants of one switch have the same value AFTER conversion to the promoted type of the      *)
+(* controlling expression.  For a 32-bit promoted type (int for _Bool/char/short/int, unsigned for unsigned) the conversion is   *)
+(* modulo 2^32, so k + m * 2^32 converts to k whatever m; for the 64-bit types it is modulo 2^64 and only m = 2^32 vanishes.     *)
+Promoted32(ct) == ct \in {"bool", "char", "short", "int", "unsigned"}
+MClass(m) == IF m = "p32" THEN "0" ELSE m
+SameAfterConversion(ct, a, b) == a.k = b.k /\ (Promoted32(ct) \/ MClass(a.m) = MClass(b.m))
+
 (* uses the value of a long double object (cproc cannot load/store/compute 16-byte floats) *)
 LdUse(f) ==
   \/ f.form \in {"bin", "asg"} /\ "gld" \in {f.l, f.r}
@@ -272,6 +279,7 @@ Bad(b, p, f) ==
   (* 6.8 statements *)
   R_case_outside_switch |-> fm = "stmt" /\ f.kind = "case" /\ ~InSwitch(b),
   R_dup_case            |-> fm = "stmt" /\ f.kind = "case" /\ InSwitch(b) /\ f.v \in CasesBefore(b),
+  R_dup_case_converted  |-> fm = "swcase" /\ SameAfterConversion(f.ct, f.a, f.b),
   R_case_nonconst       |-> fm = "stmt" /\ f.kind = "case" /\ f.v \in {"gi", "1.5"},
   R_default_outside_switch |-> fm = "stmt" /\ f.kind = "default" /\ ~InSwitch(b),
   R_dup_default         |-> fm = "stmt" /\ f.kind = "default" /\ HasDefault(b),
@@ -596,6 +604,19 @@ Wit == [
   R_lex_stray_char |-> {FLit("stray_char")},
   R_case_outside_switch |-> {FStmt("case", "1"), FStmt("case", "2")},
   R_dup_case |-> {FStmt("case", "1")},
+  R_dup_case_converted |-> {
+     \* written differently, equal after conversion to the promoted controlling type
+     FSwCase("int", KC(1, "0", "int", "lit"), KC(1, "1", "ll", "lit")), FSwCase("int", KC(7, "0", "int", "lit"), KC(7, "2", "ll", "sum")),
+     FSwCase("int", KC(1, "0", "int", "lit"), KC(1, "-1", "ll", "lit")), FSwCase("int", KC(1, "0", "int", "lit"), KC(1, "max31", "ll", "lit")),
+     FSwCase("int", KC(1, "0", "int", "lit"), KC(1, "min31", "ll", "lit")), FSwCase("int", KC(1, "0", "int", "lit"), KC(1, "1", "ull", "lit")),
+     FSwCase("int", KC(-1, "0", "int", "lit"), KC(-1, "1", "uint", "lit")), FSwCase("int", KC(-1, "0", "int", "lit"), KC(-1, "p32", "ull", "lit")),
+     FSwCase("int", KC(-1, "0", "int", "lit"), KC(-1, "-1", "ll", "lit")), FSwCase("int", KC(7, "0", "int", "lit"), KC(7, "max31", "ull", "lit")),
+     FSwCase("bool", KC(1, "0", "int", "lit"), KC(1, "1", "ll", "lit")), FSwCase("char", KC(7, "0", "int", "lit"), KC(7, "-1", "ll", "sum")),
+     FSwCase("short", KC(1, "0", "int", "lit"), KC(1, "2", "ull", "lit")), FSwCase("short", KC(-1, "0", "int", "lit"), KC(-1, "1", "uint", "lit")),
+     FSwCase("unsigned", KC(1, "0", "int", "lit"), KC(1, "1", "ll", "lit")), FSwCase("unsigned", KC(-1, "0", "int", "lit"), KC(-1, "1", "uint", "lit")),
+     FSwCase("unsigned", KC(7, "0", "int", "lit"), KC(7, "min31", "ll", "sum")), FSwCase("unsigned", KC(-1, "0", "int", "lit"), KC(-1, "max31", "ull", "lit")),
+     FSwCase("long", KC(-1, "0", "int", "lit"), KC(-1, "p32", "ull", "lit")), FSwCase("ulong", KC(-1, "0", "int", "lit"), KC(-1, "p32", "ull", "lit")),
+     FSwCase("long", KC(1, "0", "int", "lit"), KC(1, "0", "ull", "lit")), FSwCase("ulong", KC(7, "0", "int", "lit"), KC(7, "0", "ll", "lit"))},
   R_case_nonconst |-> {FStmt("case", "gi"), FStmt("case", "1.5")},
   R_default_outside_switch |-> {FStmt("default", "")},
   R_dup_default |-> {FStmt("default", "")},
@@ -767,6 +788,14 @@ BenignFrags == {
   FSInit("ptr_int", "gsspa"), FSInit("ptr_cint", "gcspa"), FSInit("ptr_cint", "gta"), FAsg("=", "gcp", "gcspa"), FAsg("=", "gcp", "gcapd"),
   FAsg("=", "gp", "gsspa"), FUn("neg", "gcsa1"), FAsg("=", "gi", "gcspin"), FAsg("=", "gi", "gcspm2"), FUn("sizeof", "gta1"), FUn("addr", "gcspa1"),
   FAsg("=", "gi", "gvsa1"),
+  \* case constants that differ by one after conversion
+  FSwCase("int", KC(1, "0", "int", "lit"), KC(2, "1", "ll", "lit")), FSwCase("int", KC(7, "0", "int", "lit"), KC(8, "2", "ll", "sum")),
+  FSwCase("int", KC(-1, "0", "int", "lit"), KC(0, "1", "ull", "lit")), FSwCase("int", KC(-1, "0", "int", "lit"), KC(0, "0", "uint", "lit")),
+  FSwCase("int", KC(1, "0", "int", "lit"), KC(2, "min31", "ll", "lit")), FSwCase("bool", KC(1, "0", "int", "lit"), KC(2, "max31", "ull", "lit")),
+  FSwCase("short", KC(7, "0", "int", "lit"), KC(8, "-1", "ll", "lit")), FSwCase("unsigned", KC(-1, "0", "int", "lit"), KC(0, "1", "ll", "lit")),
+  FSwCase("unsigned", KC(1, "0", "int", "lit"), KC(2, "0", "uint", "lit")), FSwCase("long", KC(1, "0", "int", "lit"), KC(1, "1", "ll", "lit")),
+  FSwCase("long", KC(-1, "0", "int", "lit"), KC(-1, "1", "uint", "lit")), FSwCase("ulong", KC(-1, "0", "int", "lit"), KC(-1, "-1", "ll", "lit")),
+  FSwCase("ulong", KC(7, "0", "int", "lit"), KC(7, "max31", "ull", "lit")),
   FUse("gi"), FUse("ek"), FBin("+", "gp", "gi"), FBin("+", "gi", "gq"), FBin("-", "gp", "gcp"), FBin("-", "gq", "gi"), FBin("==", "gp", "k0"),
   FBin("!=", "gv", "gp"), FBin("==", "gfp", "gfp"), FBin("<", "gp", "gcp"), FBin(">=", "gv", "gv"), FBin("<=", "gip", "gip"), FBin("&", "gi", "k0"),
   FBin("%", "gi", "gi"), FBin("<<", "gi", "k0"), FBin("&&", "gp", "gd"), FBin("||", "gfp", "gi"), FBin("*", "gd", "gi"), FBin("/", "gi", "gd"),
@@ -902,6 +931,7 @@ Violate_R_lex_string_prefix_mix(p) == Violate("R_lex_string_prefix_mix", p)
 Violate_R_lex_stray_char(p) == Violate("R_lex_stray_char", p)
 Violate_R_case_outside_switch(p) == Violate("R_case_outside_switch", p)
 Violate_R_dup_case(p) == Violate("R_dup_case", p)
+Violate_R_dup_case_converted(p) == Violate("R_dup_case_converted", p)
 Violate_R_case_nonconst(p) == Violate("R_case_nonconst", p)
 Violate_R_default_outside_switch(p) == Violate("R_default_outside_switch", p)
 Violate_R_dup_default(p) == Violate("R_dup_default", p)
@@ -1047,6 +1077,7 @@ NamedViolate(p) ==
   \/ Violate_R_lex_stray_char(p)
   \/ Violate_R_case_outside_switch(p)
   \/ Violate_R_dup_case(p)
+  \/ Violate_R_dup_case_converted(p)
   \/ Violate_R_case_nonconst(p)
   \/ Violate_R_default_outside_switch(p)
   \/ Violate_R_dup_default(p)
@@ -1175,6 +1206,7 @@ SubOf(f) == CASE f.form = "bin" -> (IF f.l \in EntNames /\ f.r \in EntNames /\ N
               [] f.form = "drop" -> (IF f.with = "" THEN f.tok ELSE f.with)
               [] f.form = "cinit" -> SubOf(f.of)
               [] f.form = "enumfix" -> f.ub
+              [] f.form = "swcase" -> f.ct
               [] OTHER -> f.form
 
 (* One invariant evaluates the rules once per state and does three things:                 *)
@@ -1207,7 +1239,7 @@ Inv_Defs == /\ Valid(prog) <=> Violated(prog) = {}
 
 (* tables the harness needs (entities, types, bases): exported once *)
 Meta == [ents |-> [n \in EntNames |-> [decl |-> Ent(n).decl, txt |-> Ent(n).txt, loc |-> Ent(n).loc]],
-         ctype |-> CType, prelude |-> PreludeTypes, bases |-> BaseTab,
+         ctype |-> CType, prelude |-> PreludeTypes, bases |-> BaseTab, ctlvar |-> CtlVar,
          rules |-> RuleNames, unsup |-> UnsupNames,
          nwit |-> [r \in RuleNames \cup UnsupNames |-> Cardinality(Wit[r])]]
 ASSUME PrintT("VCASE " \o ToJson([meta |-> Meta]))
